@@ -92,7 +92,13 @@ func (f *GoField) MarshalJSON() ([]byte, error) {
 func newGoField(f reflect.StructField) (*GoField, error) {
 	typ := f.Type
 	if f.Type.Kind() == reflect.Struct {
-		typ = reflect.PointerTo(typ)
+		// Struct-valued fields are exposed as pointers so that a script can
+		// mutate them in place, except struct types that have a dedicated
+		// value converter (time.Time), which cross the boundary by value.
+		conv, registered := typeConverters[f.Type]
+		if _, isStruct := conv.(*StructConverter); !registered || isStruct {
+			typ = reflect.PointerTo(typ)
+		}
 	}
 
 	fieldGoType, err := newGoType(typ)
